@@ -2,6 +2,7 @@
 
 from __future__ import annotations
 
+import datetime as _dt
 import logging
 import re
 from collections import OrderedDict, deque
@@ -16,6 +17,7 @@ THEOREMS = [
     "C19_cutoff_is_last_slot", "C19_view_within_log", "C19_announcement_at_full_depth",
     "C19_clean_histories_track", "C19_read_through_completes", "C19_clean_history_example",
     "C19_no_duplicates_refuted", "C19_pushdown_refuted", "C19_read_through_refuted", "C19_nonvacuous",
+    "C19_read_through_asks_every_slot", "C19_full_log_read_to_the_last_slot",
 ]
 
 PRELUDE = ("From Coq Require Import ZArith List Bool.\nFrom RV Require Import GenConsts M_Faultlog.\n"
@@ -285,6 +287,21 @@ def run(ctx: Ctx) -> None:
                            f"{len(bad)} of {len(kimpl)} differ; first: ops {kcases[bad[0]][:300]} model {model[bad[0]][:6]} implementation {kimpl[bad[0]][:6]}" if bad else "")
     else:
         ctx.obligation("correspondence:clean-histories(krun)", False, "correspondence", "model not built")
+    asks = ctx.extra.pop("read_through_asks", [])
+    if built and asks:
+        src = PRELUDE + "Eval vm_compute in (map (fun n => get_faultlog_asks n 0 64) [" + "; ".join(f"{n}%nat" for n, _ in asks) + "]).\n"
+        rc, out = common.coq_eval("C19a", {"a": src}, timeout=120)["a"]
+        m = re.search(r"=\s*(\[.*\])\s*:\s*list \(list nat\)", out, flags=re.S)
+        if rc or not m:
+            ctx.obligation("correspondence:read-through-requests", False, "correspondence", out[-300:])
+        else:
+            model = [list(r) for r in eval(m.group(1).replace(";", ",").replace("%nat", ""), {"__builtins__": {}})]  # noqa: S307
+            bad = [i for i, (a, (_, b)) in enumerate(zip(model, asks)) if a != b]
+            ctx.obligation("correspondence:read-through-requests", not bad and len(model) == len(asks), "correspondence",
+                           f"{len(bad)} of {len(asks)} read-throughs ask for other slots than the model; first: log of {asks[bad[0]][0]} entries: model {model[bad[0]][-4:]} (last four), get_faultlog() {asks[bad[0]][1][-4:]}" if bad
+                           else f"{len(asks)} undisturbed read-throughs by the real get_faultlog() (logs of 2..64+ entries): the slots asked for are the model's")
+    elif not built:
+        ctx.obligation("correspondence:read-through-requests", False, "correspondence", "model not built")
 
 
 DEPTH = 64   # the property: "log up to 64 deep" -- the controller's slots are 00..3F, whatever the library's constants say
@@ -405,6 +422,8 @@ def deep_log(ctx: Ctx, entry_msg, null_msg, rounds: int) -> None:
             async def async_send_cmd(self, cmd, **kw):
                 i = int(cmd.payload[4:6], 16)
                 state["k"] += 1
+                state.setdefault("asked", []).append(i)
+                state.setdefault("len0", len(log))
                 if fail_at is not None and state["k"] == fail_at:
                     hist.append(("RQ", i, "fails"))
                     raise texc.ProtocolSendFailed("scripted: no reply")
@@ -413,8 +432,9 @@ def deep_log(ctx: Ctx, entry_msg, null_msg, rounds: int) -> None:
                     f.handle_msg(m)                      # the dispatcher delivers the reply too
                     hist.append(("RP", i, log[i]))
                     pkt = m._pkt
-                else:
-                    pkt = null_msg(i)._pkt
+                else:      # "no entry at this index": the controller's reply carries index 00 whatever was asked (the library patches the index itself)
+                    from ramses_tx.packet import Packet  # noqa: PLC0415
+                    pkt = Packet(_dt.datetime.now(), f"000 RP --- {CTL} 18:000730 --:------ 0418 022 {null_payload}")
                     hist.append(("RP", i, None))
                 if inject_after is not None and state["k"] == inject_after:
                     new_entry(log, state["nxt"])
@@ -431,6 +451,8 @@ def deep_log(ctx: Ctx, entry_msg, null_msg, rounds: int) -> None:
         except texc.ProtocolSendFailed:
             hist.append(("get_faultlog", "raised ProtocolSendFailed"))
             ok = False
+        if ok and inject_after is None and fail_at is None:       # an undisturbed read-through: the slots asked for, for the model's get_faultlog_asks
+            ctx.extra.setdefault("read_through_asks", []).append((state.get("len0", len(log)), state.get("asked", [])))
         return ok, state["nxt"]
 
     # ... on a log at (and past) its full depth: the real read-through loop, from a fresh view and from a view holding only a stale entry near the bottom
